@@ -148,6 +148,14 @@ impl SizeManifest {
             });
         }
 
+        // The V2 header stores total_size in 40 bits
+        if matches!(self.header, SizeHeader::V2(_)) && computed_total > 0xFF_FFFF_FFFF {
+            return Err(SizeError::ValueTooLarge {
+                value: computed_total,
+                bytes: 5,
+            });
+        }
+
         // Validate individual entries
         for entry in &self.entries {
             entry.validate(&self.header)?;
